@@ -541,6 +541,16 @@ def s_sql_closed(rep, W, rule="S-SQL"):
                % ("%d element(s)" % len(s.params) if s.params is not None else "not recognised"), s.where(), nontrivial=False)
         for st in s.stmts:
             texts.add(st["text"])
+            if st["verb"] == "CREATE TABLE" and st.get("ddl") and st["ddl"].get("columns") and all(isinstance(c_, dict) and "decl" in c_ for c_ in st["ddl"]["columns"]):
+                # a column constraint (NOT NULL, CHECK, DEFAULT, UNIQUE, REFERENCES ..) refuses or rewrites rows that the storage
+                # contract allows, that the in-memory back end accepts, and that databases created earlier already hold
+                extra = [(c_["name"], c_["decl"]) for c_ in st["ddl"]["columns"] if c_["decl"].upper().split() not in ([c_["type"].upper()], [c_["type"].upper(), "PRIMARY", "KEY"])]
+                rep.ob(rule, key + ("ddl-no-column-constraints", str(st["table"])), not extra,
+                       "column declarations beyond `<type>` / `<type> PRIMARY KEY` in %s %s: %s" % (st["verb"], st["table"], extra or "none"), s.where(), nontrivial=False)
+            nsel = len([w_ for w_ in st["text"].upper().replace("(", " ( ").split() if w_ == "SELECT"])
+            rep.ob(rule, key + ("no-subselect", st["verb"] + ":" + str(st["table"])), nsel <= (1 if st["verb"] == "SELECT" else 0),
+                   "%d SELECT keyword(s) in one %s statement: a sub-select reads rows that the scope / key obligations of the outer statement do not cover (outside the modelled dialect: fail closed)"
+                   % (nsel, st["verb"]), s.where(), nontrivial=False)
             if s.params is not None:
                 rep.ob(rule, key + ("arity", st["verb"] + ":" + str(st["table"])), st["nparams"] == len(s.params),
                        "%d placeholder(s) vs %d bound parameter(s)" % (st["nparams"], len(s.params)), s.where(), nontrivial=False)
